@@ -30,13 +30,17 @@ type bufferPool struct {
 
 func (b *bufferPool) Get() *bytes.Buffer {
 	if buffer, ok := b.Pool.Get().(*bytes.Buffer); ok {
+		verifPoolGet(buffer, true)
 		buffer.Reset()
 		return buffer
 	}
-	return bytes.NewBuffer(make([]byte, 0, initialBufferSize))
+	buffer := bytes.NewBuffer(make([]byte, 0, initialBufferSize))
+	verifPoolGet(buffer, false)
+	return buffer
 }
 
 func (b *bufferPool) Put(buffer *bytes.Buffer) {
+	verifPoolPut(buffer)
 	if buffer.Cap() > maxRecycleBufferSize {
 		return
 	}
@@ -48,7 +52,9 @@ func (b *bufferPool) Wrap(data []byte, orig *bytes.Buffer) *bytes.Buffer {
 		// Original buffer was too small, so we had to grow its slice to
 		// compute data.  Replace the buffer with the larger,
 		// newly-allocated slice.
-		return bytes.NewBuffer(data)
+		buffer := bytes.NewBuffer(data)
+		verifPoolWrap(orig, buffer)
+		return buffer
 	}
 	// The buffer from the pool was large enough so no growing was necessary.
 	// That means this should be a no-op since the buffer, under the hood, will
